@@ -1,6 +1,7 @@
 package eng
 
 import (
+	"strconv"
 	"fmt"
 	"math"
 	"os"
@@ -348,7 +349,24 @@ func (e *Engine) discharge(res *HarnessResult, cfg RunConfig) {
 	if len(live) > 0 {
 		// obligations are closed in chunks: one query for the disjunction of a chunk; only a chunk that does not
 		// close is split into individual queries. Chunks run in parallel.
+		// wall-time budget per harness for the safety obligations: once it is used up the remaining obligations are
+		// reported "unknown" (harness INCONCLUSIVE) instead of queueing behind 120 s timeouts for hours; what was found
+		// until then (violations included) is still reported
+		budget := 900 * time.Second
+		if cfg.Tier == "thorough" {
+			budget = 3600 * time.Second
+		}
+		if s := os.Getenv("VERIF_HARNESS_BUDGET_S"); s != "" {
+			if n, err := strconv.Atoi(s); err == nil {
+				budget = time.Duration(n) * time.Second
+			}
+		}
+		deadline := time.Now().Add(budget)
 		solveOne := func(o *Obligation) {
+			if time.Now().After(deadline) {
+				o.Result, o.Solver = "unknown", "harness budget exhausted"
+				return
+			}
 			if o.Assume.IsTrue() && o.Cond.IsTrue() {
 				// concrete execution (engine replay with fixed values): the obligation fails outright
 				o.Result, o.Model, o.Solver = "sat", Model{}, "none"
@@ -397,7 +415,7 @@ func (e *Engine) discharge(res *HarnessResult, cfg RunConfig) {
 						}
 						continue
 					}
-					if len(c.obls) > 1 {
+					if len(c.obls) > 1 && time.Now().Before(deadline) {
 						if r, _, _ := pool.Solve([]*Term{c.disj}, nil); r == "unsat" {
 							for _, o := range c.obls {
 								o.Result = "unsat"
